@@ -51,6 +51,14 @@ def _progs_for(prop, tier, seed):
         for p in dupp:
             p.name += "__dup"
         add(dupp, "run", ["mismatch", "nonterm", "panic"], dup=True)
+    elif prop == "C06":
+        add(gen.c06_variants(seed, per_base=6 if q else 18), "run", ["mismatch", "nonterm", "panic"])
+    elif prop == "C07":
+        add(gen.c07_curated(), "run", ["mismatch", "nonterm", "panic"])
+    elif prop == "C08":
+        add(gen.c08_curated(), "run", ["mismatch", "nonterm", "panic"])
+    elif prop == "C09":
+        add(gen.c09_variants(), "run", ["mismatch", "nonterm", "panic"])
     elif prop == "C13":
         base = gen.c01_curated() + gen.c03_curated() + gen.c04_curated()
         add(base, "rerun", ["mismatch", "nonterm", "panic"])
@@ -64,8 +72,8 @@ def _progs_for(prop, tier, seed):
         # two symbolic input sets over a lattice program: universe of 2 constants (3 exceeds the node budget)
         add(lat, "push", ["mismatch", "nonterm", "panic"], D=2)
     elif prop == "C14":
-        base = gen.c01_curated() + gen.c04_curated()
-        sel = base if not q else [p for p in base if p.name in ("tc", "two_strata", "mutual3", "facts_multihead", "agg_chain", "agg_over_recursive", "consts_repeats", "generators")]
+        base = gen.c01_curated() + gen.c04_curated() + gen.c14_lattice()
+        sel = base if not q else [p for p in base if p.name in ("tc", "two_strata", "mutual3", "facts_multihead", "agg_chain", "agg_over_recursive", "consts_repeats", "generators", "neg_basic", "lat_scan_later", "lat_sp_small")]
         for p in sel:
             p.attrs.append("generate_run_timeout")
             p.name = p.name + "__rt"
@@ -92,6 +100,10 @@ PROPS = {
     "C03": {"title": "lattice relations: one row per key, least fixed point", "design_ref": "DESIGN.md §5 C03"},
     "C04": {"title": "negation / aggregation see the complete relation once", "design_ref": "DESIGN.md §5 C04"},
     "C05": {"title": "relations are sets (serial half)", "design_ref": "DESIGN.md §5 C05"},
+    "C06": {"title": "invariance under reordering / renaming", "design_ref": "DESIGN.md §5 C06"},
+    "C07": {"title": "surface forms = documented core expansion", "design_ref": "DESIGN.md §5 C07"},
+    "C08": {"title": "in-program macros are hygienic", "design_ref": "DESIGN.md §5 C08"},
+    "C09": {"title": "packaging variants are transparent", "design_ref": "DESIGN.md §5 C09"},
     "C13": {"title": "run() idempotent, monotone re-runs equal a fresh run", "design_ref": "DESIGN.md §5 C13"},
     "C14": {"title": "run_timeout stops in a sound, resumable state", "design_ref": "DESIGN.md §5 C14"},
 }
@@ -126,7 +138,8 @@ def _worker(args):
         out = Ck.check_program(cp, mod, prog, sc, _r.Random(seed * 7919 + jidx), V=V)
         res = {"program": prog.name, "scenario": sc.describe(), "status": out.status, "detail": out.detail,
                "queries": [{"name": x.name, "kind": x.kind, "verdict": x.verdict, "solver_s": x.time} for x in out.queries],
-               "validated": out.validated, "stats": out.stats, "cex": out.cex, "replay": out.replay, "wall_s": round(time.time() - t0, 2)}
+               "validated": out.validated, "stats": out.stats, "cex": out.cex, "replay": out.replay,
+               "cexes": [{"cex": c, "replay": r} for c, r in out.cexes], "wall_s": round(time.time() - t0, 2)}
         return jidx, res
     except Exception as e:
         return jidx, {"program": pname, "status": "inconclusive", "detail": "internal error: %s\n%s" % (e, traceback.format_exc()[-1500:]),
@@ -144,7 +157,7 @@ def role_of(prop, job, res):
     agg_rels = set()
     for h, b in L.core_rules(p):
         for it in b:
-            if isinstance(it, L.Agg) and it.agg in ("count", "sum", "mean"):
+            if isinstance(it, L.Agg) and it.agg in ("count", "sum", "mean", "wsum"):
                 agg_rels.add(it.rel)
     cex_in = (res.get("cex") or {}).get("inputs") or {}
     dup_in_agg = any(len(rows) != len(set(rows)) for rn, rows in cex_in.items() if rn in agg_rels)
@@ -163,7 +176,7 @@ def program_features(p):
         for it in b:
             if isinstance(it, L.Agg):
                 agg = True
-                if it.agg in ("count", "sum", "mean"):
+                if it.agg in ("count", "sum", "mean", "wsum"):
                     msagg = True
             if isinstance(it, (L.Agg, L.Neg)) and p.relmap[it.rel].lattice:
                 last = it.args[-1]
@@ -215,29 +228,51 @@ def check(prop, tier, only=None):
             if res["stats"].get("input_vars", 0) > 0 and rf[0] > 0:
                 nontrivial += 1
         elif st == "violation":
-            probs = (res.get("replay") or {}).get("problems", [])
-            relevant = [pr for pr in probs if pr[0] in kinds]
-            if not relevant:
-                # a reproduced defect of a kind this property does not speak about: not this property's alarm
-                res["status"] = "ok"
-                res["detail"] = "(other-property finding ignored here: %s)" % res["detail"][:200]
-            else:
-                role = role_of(prop, job, res)
-                res["role"] = role
-                rp = C.save_replay(prop, "%s-%s.json" % (res["program"], job["scenario"]["kind"]),
+            # every natively reproduced counterexample of the job is classified on its own
+            cexes = res.get("cexes") or [{"cex": res.get("cex"), "replay": res.get("replay")}]
+            any_rel = False
+            for n_, cr in enumerate(cexes):
+                probs = (cr["replay"] or {}).get("problems", [])
+                relevant = [pr for pr in probs if pr[0] in kinds]
+                if not relevant:
+                    continue   # a reproduced defect of a kind this property does not speak about
+                any_rel = True
+                one = dict(res)
+                one["cex"], one["replay"] = cr["cex"], cr["replay"]
+                role = role_of(prop, job, one)
+                rp = C.save_replay(prop, "%s-%s%s.json" % (res["program"], job["scenario"]["kind"], ("-%d" % n_) if n_ else ""),
                                    json.dumps({"property": prop, "program": res["program"], "program_text": L.program_rs(job["prog"]),
-                                               "scenario": res["scenario"], "counterexample": res["cex"], "replay": res["replay"], "role": role}, indent=1, default=str))
+                                               "scenario": res["scenario"], "counterexample": cr["cex"], "replay": cr["replay"], "role": role}, indent=1, default=str))
                 kf = C.match_known(prop, role)
                 if kf:
                     known.append("%s [program %s, scenario %s]" % (kf["key"], res["program"], job["scenario"]["kind"]))
                 else:
                     violations.append(rp)
+            if not any_rel:
+                res["status"] = "ok"
+                res["detail"] = "(other-property finding ignored here: %s)" % res["detail"][:200]
         else:
             inconclusive.append("%s/%s: %s" % (res["program"], job["scenario"].get("kind"), res["detail"][:400]))
         if len(samples) < 5 or st != "ok":
             if len(samples) < 12:
                 samples.append({"program": res["program"], "text": L.program_rs(job["prog"]), "scenario": res["scenario"], "status": res["status"],
                                 "queries": qs, "stats": res["stats"], "validated_dbs": res["validated"], "detail": res["detail"][:300]})
+    extra_cov = {}
+    if prop == "C09" and not only:
+        # segment-codegen: Kani harness over ascent::internal::run_rule, built with and without the feature
+        from . import kanirun as K
+        from . import kani_checks as KC
+        for feat, tdir in (([], "kani-base"), (["--features", "seg"], "kani-base-seg")):
+            g = K.run_group(KC.BASE, os.path.join(C.CACHE, tdir), ["c09::"], jobs=1, timeout=900, extra=feat,
+                            env_extra={"RUSTFLAGS": "--cfg ascent_verif"},
+                            log=os.path.join(C.CACHE, "logs", "C09-kani-%s.log" % ("seg" if feat else "default")))
+            rs = g["results"]
+            okk = [h for h, r in rs.items() if K.classify(r)[0] == "discharged"]
+            extra_cov["run_rule_harness_" + ("segment_codegen" if feat else "default")] = {"harnesses": sorted(rs), "discharged": okk, "cmd": g["cmd"]}
+            nq += len(rs)
+            nunsat += len(okk)
+            if len(okk) != 1 or g["build_failed"] or g["timed_out"]:
+                inconclusive.append("run_rule harness (%s): %s" % ("segment-codegen" if feat else "default", [K.classify(r) for r in rs.values()] or g["tail"][-300:]))
     known = sorted(set(known))
     cov = {
         "programs": len(keep),
@@ -250,7 +285,7 @@ def check(prop, tier, only=None):
         "checker_cmd": "./check.py %s --tier %s" % (prop, tier),
         "trusted_base": TRUSTED,
         "functions_encoded": ["<Program>::run / run_timeout / update_indices_priv / Default::default as generated by ascent_macro for every corpus program (expanded text, regenerated from /repo on every run)"],
-        "bounds": "universe D=3 constants per input column; all 2^n input databases (n = input_vars per program, see samples); fixpoint loops unrolled adaptively until the solver proves no database reaches the next iteration (K_max=12, otherwise an unwinding obligation is reported); row multiplicity <= MAXM (2..4, overflow obligation discharged by the solver)",
+        "bounds": "universe D=3 constants per input column; all 2^n input databases (n = input_vars per program, see samples); fixpoint loops unrolled adaptively until the solver proves no database reaches the next iteration (K_max=64, otherwise an unwinding obligation is reported); row multiplicity <= MAXM (2..4, overflow obligation discharged by the solver)",
         "solver_time_s": round(solver_s, 2),
         "solvers": ["z3 (python API, SolverFor('QF_FD'))"],
         "corpus_build": cp.stats,
@@ -258,6 +293,7 @@ def check(prop, tier, only=None):
         "exhaustive": False,
         "inconclusive": inconclusive[:20],
         "known_findings_hit": known,
+        "extra": extra_cov,
         "jobs": [{"program": results[i]["program"], "scenario": jobs[i]["scenario"]["kind"], "status": results[i]["status"],
                   "input_vars": results[i]["stats"].get("input_vars"), "steps": results[i]["stats"].get("steps"),
                   "loop_iters": results[i]["stats"].get("loop_iters"), "rules_fireable": results[i]["stats"].get("rules_fireable"),
